@@ -107,7 +107,7 @@ func TestC01(t *testing.T) {
 	})
 	p = c.rec.NewPart("rapid_corpus_mutation", "rapid: repository fixtures with 1-4 edits", true, false, "")
 	c.Rapid(p, 4, pick(15000, 300000), func(rt *rapid.T, sh int) ev.Case {
-		return c01Case(gen.Mutate(rt, rapid.SampledFrom(corpus.SQL).Draw(rt, "base"), gen.FragSQL))
+		return c01Case(gen.Mutate(rt, rapid.SampledFrom(corp().SQL).Draw(rt, "base"), gen.FragSQL))
 	})
 	c.rec.Require("returns_true", "returns_false")
 }
